@@ -11,7 +11,9 @@
 //   * the closing critical section of KeyValueStore::write (wait to be head, publish, leave, notify) preserves it: the
 //     writer publishes its own timestamp only when it is head of the wait list, i.e. when every writer sequenced before it
 //     has applied its batch and left, and after its own log_and_apply has returned;
-//   * KeyValueStore::load and KeyValueStore::range_scan snapshot at a timestamp t with F(t).
+//   * KeyValueStore::load and KeyValueStore::range_scan snapshot at a timestamp t with F(t);
+//   * the flush thread's roll-over critical section (_memtable_thread: new memtable and log, seq_no + 1, its own turn in
+//     the wait list) leaves the published watermark a fully applied prefix.
 // The invariant is established by open() (nothing is in flight) and holds at every release of the mutex; a wait on a
 // condition variable inside a critical section hands back any state satisfying it.
 // ASSUMED: writers are linked into the wait list in timestamp order (link and the timestamp assignment share one
@@ -233,6 +235,76 @@ fn scan_snapshot(kvs: &KeyValueStore, state: &KvState) -> (r: (MemArc, Option<Me
 //@ >>
 //@ end
 
-//@ min-verified 4
+
+// ---- the flush thread's roll-over critical section: a new memtable and log, the sequence number moves on, the published
+// watermark does not (nothing is applied here)
+#[verifier::external_body]
+struct PathBuf { _p: u8 }
+#[verifier::external_body]
+struct Root { _p: u8 }
+struct RollState { seq_no: u64, visible_seq_no: u64, mem: MemArc, mem_log: LogArc, imm: Option<MemArc>, imm_trigger: u64, mem_seq_no: u64, mem_path: PathBuf }
+impl RollState {
+    spec fn inv(&self) -> bool { all_applied(self.visible_seq_no) }
+}
+#[verifier::external_body]
+fn log_file(root: &Root, n: u64) -> (r: PathBuf) { unimplemented!() }
+#[verifier::external_body]
+fn swap_paths(a: &mut PathBuf, b: &mut PathBuf) { unimplemented!() }
+#[verifier::external_body]
+fn new_memtable() -> (r: MemArc) { unimplemented!() }
+#[verifier::external_body]
+struct Condvar { _p: u8 }
+impl Condvar {
+    // `state = self.cnd_needs_memtable_flush.wait(state).unwrap()`
+    #[verifier::external_body]
+    // (ASSUMED, machine arithmetic: fewer than 2^64 - 1 sequence numbers are ever handed out)
+    fn wait_roll(&self, state: &mut RollState) requires old(state).inv() ensures final(state).inv(), final(state).seq_no < 0xffff_ffff_ffff_ffff { unimplemented!() }
+}
+impl WaitGuard {
+    #[verifier::external_body]
+    fn naked_wait_roll(&self, state: &mut RollState) requires old(state).inv() ensures final(state).inv() { unimplemented!() }
+}
+struct FlushStore { root: Root, wait_list: WaitList, cnd_needs_memtable_flush: Condvar }
+impl FlushStore {
+    #[verifier::external_body]
+    fn start_new_log(&self, p: &PathBuf) -> (r: Result<LogArc, SError>) { unimplemented!() }
+}
+//@ extract lsmtk/src/kvs/mod.rs | impl KeyValueStore :: fn _memtable_thread
+//@ region `let (imm, imm_log, imm_path, imm_trigger) = {`
+//@ region-sig <<
+#[verifier::exec_allows_no_decreases_clause]
+fn memtable_rollover(kvs: &FlushStore, state: &mut RollState) -> (r: Result<(MemArc, LogArc, PathBuf, u64), SError>)
+//@ >>
+//@ region-tail <<
+    ;
+    Ok((imm, imm_log, imm_path, imm_trigger))
+//@ >>
+//@ rewrite-re X18 `\bself\.` => `kvs.`
+//@ rewrite-re X23 `(?m)^\s*let mut state = kvs\.state\.lock\(\)\.unwrap\(\);\n` => ``
+//@ rewrite X23 `state = kvs.cnd_needs_memtable_flush.wait(state).unwrap();` => `kvs.cnd_needs_memtable_flush.wait_roll(state);`
+//@ rewrite X23 `state = wait_guard.naked_wait(state);` => `wait_guard.naked_wait_roll(state);`
+//@ rewrite-re X18 `Arc::clone\(&state\.(\w+)\)` => `state.\1.arc_clone()`
+//@ rewrite-re X7 `LOG_FILE\(&kvs\.root, ([\w.]+)\)` => `log_file(&kvs.root, \1)`
+//@ rewrite X7 `std::mem::swap(&mut imm_path, &mut state.mem_path);` => `swap_paths(&mut imm_path, &mut state.mem_path);`
+//@ rewrite X18 `Arc::new(MemTable::default())` => `new_memtable()`
+//@ rewrite-re X7 `(?s)kvs\.poison\(Self::start_new_log\(\s*&state\.mem_path,\s*kvs\.options\.log\.clone\(\),\s*\)\)\?` => `kvs.start_new_log(&state.mem_path)?`
+//@ rewrite X23 `kvs.wait_list.link(())` => `kvs.wait_list.link(Ghost(state.seq_no))`
+//@ rewrite X18 `drop(wait_guard);` => `drop_guard(wait_guard);`
+//@ pre <<
+        old(state).inv(), old(state).seq_no < 0xffff_ffff_ffff_ffff,
+//@ >>
+//@ post <<
+        // however long it waited and whatever it swapped: what readers snapshot at is still a fully applied prefix
+        final(state).inv(),
+//@ >>
+//@ loop 0 <<
+            invariant state.inv(), state.seq_no < 0xffff_ffff_ffff_ffff,
+//@ >>
+//@ loop 1 <<
+            invariant /* contract-inv */ state.inv(),
+//@ >>
+//@ end
+
+//@ min-verified 5
 } // verus!
 fn main() {}
